@@ -148,7 +148,7 @@ def run(ctx, proofs):
         for k, st in enumerate(structures):
             for kind, s2, argv in variants(ctx, st, k):
                 projects.append(e2e.render_structure(s2, tag="s%d-%s" % (k, kind), argv=argv))
-                projects[-1].meta["defs"] = {(d[0], d[1]) for f in s2["files"] for d in f["defs"]}
+                projects[-1].meta["defs"] = sorted([d[0], d[1]] for f in s2["files"] for d in f["defs"])
                 info.append((k, kind))
         # regression corpus: fixed witnesses, run 8 times each in fresh processes
         corpus = e2e.load_corpus("C17")
@@ -193,7 +193,7 @@ def run(ctx, proofs):
                     # definitions added / removed: the findings of every definition present in both versions are
                     # unchanged; parse-stage findings (which include the desugarer's per-definition errors) may only
                     # gain / lose findings
-                    common_defs = projects[ref_i].meta["defs"] & projects[i].meta["defs"]
+                    common_defs = {tuple(d) for d in projects[ref_i].meta["defs"]} & {tuple(d) for d in projects[i].meta["defs"]}
                     keys = {o for o in (set(ref) | set(got)) if o in common_defs}
                     diff = [o for o in sorted(keys) if ref.get(o, []) != got.get(o, [])]
                     small, big = (ref, got) if kind == "definitions-added" else (got, ref)
